@@ -42,6 +42,15 @@ CHECKS = {
                      "typed lexicographic order and to the interpreter's comparator; (c) emitted range bounds with MIN/MAX sentinels select exactly the "
                      "matching tuples; (d) aggregate initial values / fold steps agree.  Generated loop nests, relation wrappers and -C/-G splitting are outside.",
                 ref="DESIGN.md#c02", note=K_NOTE),
+    "C17": dict(engine="K", cat="other", tech="bounded model checking (CBMC, kissat/SAT) of the verbatim CSV writer/reader string kernels over a bounded string model, all byte strings up to the bound",
+                text="For every tuple of k symbols of at most L bytes (rfc4180: all 256 byte values; unquoted modes minus delimiter/newline), "
+                     "ReadStreamCSV::{readNextLine,nextElement}(WriteStreamCSV::{writeNextTupleCSV,outputSymbol}(t)) = t with nothing left over; thorough: "
+                     "the decimal printers composed with Ram{Signed,Unsigned}FromString are the identity on all 32-bit values. Float text, gzip, JSON, "
+                     "SQLite, records/ADTs are outside.", ref="DESIGN.md#c17", note=K_NOTE),
+    "C18": dict(engine="K", cat="other", tech="bounded model checking (CBMC, kissat) of the verbatim number-parsing kernels (std::sto* modelled, model validated against libstdc++ each run) against an independent recogniser, all byte strings up to the bound",
+                text="For every byte string up to L bytes (L=5 all bytes, digit shapes up to 11-12) RamSignedFromString / RamUnsignedFromString / "
+                     "readRamUnsigned + the completeness test accept iff an independent recogniser says the literal is complete and in range, and store its "
+                     "value; otherwise they reach the throw point. Floats, records, error text are outside.", ref="DESIGN.md#c18", note=K_NOTE),
     "C22": dict(engine="K", cat="model_checking", tech="bounded model checking (CBMC) of the sliced interpreter counter and the synthesiser's emitted counter expression, all interleavings of 2-3 threads",
                 text="Engine::incCounter with its real member declaration and the counter expression + field declaration emitted by souffle -g, run by 2 and 3 "
                      "threads x 2 calls under all interleavings: returned values pairwise distinct. Counterexample schedules are replayed natively.",
@@ -72,11 +81,21 @@ CHECKS = {
     "C20": R("RAM emitted with -p: outputs proved equal to the least model; the tuple count souffleprof derives from the size events equals "
              "the final relation size as an identity over symbolic guards.  Event serialisation / souffleprof parsing outside.", "DESIGN.md#c20", cat="other"),
     "C23": R("limitsize contract (subset; equal when small; at least k otherwise) decided on the emitted RAM for every database in the bound.", "DESIGN.md#c23", cat="other"),
+    "C29": dict(engine="K", cat="other", tech="bounded model checking (CBMC) of the real DisjointSet with PiggyList inlined: sequential step from every valid forest (N<=4) and bounded interference by one complete real operation at every atomic step",
+                text="From every valid forest over N<=4 nodes union/find/sameSet update the partition exactly and preserve the ghost-rank invariant "
+                     "(hence acyclicity); with one complete operation of another thread injected at any atomic step (N=2 all sites, N=3 selected sites) no "
+                     "cycle, no class split, final partition = closure, answers correct. More than one interrupting operation, 3+ threads, weak memory outside.",
+                ref="DESIGN.md#c29", note=K_NOTE),
     "C30": dict(engine="K", cat="model_checking", tech="bounded model checking (CBMC, SAT) of IR-derived C of the real lock, all interleavings of 3 clients",
                 text="Every role triple of {write, try-write, upgrade, abort, read} over the real OptimisticReadWriteLock methods is one CBMC query "
                      "over all interleavings of 3 clients (unwinding assertions on): single writer, validated reads, sound upgrades, abort "
                      "re-validates leases, nobody waits without a writer. Counterexample schedules are replayed natively.",
                 ref="DESIGN.md#c30", note=K_NOTE),
+    "C31": dict(engine="K", cat="other", tech="bounded model checking (CBMC) of ConcurrentInsertOnlyHashMap::get and ConcurrentFlyweight::findOrInsert from symbolic bucket-list / lane states with bounded environment insertions",
+                text="Hash-map kernel only: from every bucket-list state with <=3 nodes and <=2 environment insertions at solver-chosen atomic points, an equal "
+                     "key is found and not re-inserted, a fresh key is inserted exactly once, the returned entry maps to the key, no node is lost; "
+                     "findOrInsert slot reservation sequentially from symbolic lane states. Growth, iteration across growth, Symbol/RecordTableImpl outside.",
+                ref="DESIGN.md#c31", note=K_NOTE),
 }
 
 NOT_APPLICABLE = {
